@@ -345,6 +345,10 @@ func init() {
 		HarnessSpec{Name: "VerifH_twirp_escape", Covers: []string{"twirp-escaped"}})
 	ext("C05", "status details: a failing handler's status with 1..2 details (Any values, 0..2 symbolic payload bytes each), 16 codes, empty and non-empty message, on gRPC, gRPC-web (trailer frame and trailers-only) and HTTP transcoding; grpc-status-details-bin is decoded with an independent base64 and protobuf wire reader (proto.Marshal of google.rpc.Status modelled byte-exactly, the real one runs in replays)",
 		HarnessSpec{Name: "VerifH_status_details", Covers: []string{"grpc", "web-trailers-only", "http", "empty-message"}})
+	ext("C02", "completeness across registrations: after every step of the registration histories of C11 (services registered one after another on clones of the routing state, connections registered, dropped, re-registered) every rule of every live method - implicit /Service/Method paths and kind-* bindings of EARLIER registrations included - still dispatches",
+		HarnessSpec{Name: "VerifH_registry", Covers: []string{"live-route", "register-local-twice", "register-conn"}})
+	ext("C07", "WebSocket upgrade on /v1/{f=rooms/*} with and without a query parameter naming the path-bound field: the first message's field carries the path capture",
+		HarnessSpec{Name: "VerifH_ws_stream", Covers: []string{"query-rival"}})
 	wkt := "well-known-type parameters (google.protobuf wrappers, FieldMask, Duration, Timestamp) through the real parseQueryParams / parseParam / quote / params.set: the empty text for each of 10 types, a menu of 40 boundary texts (non-BMP strings, 32/64-bit limits, duration range and Go-style units, leap days, RFC 3339 range), symbolic texts of 1..3 (quick) / 1..4 (thorough) bytes for StringValue, BoolValue, Int32Value / UInt32Value, BytesValue, FieldMask; protojson's scalar forms modelled (model_wkt.go), generated messages seen through a fake reflection view"
 	for _, id := range []string{"C03", "C09", "C01"} {
 		ext(id, wkt, HarnessSpec{Name: "VerifH_params_wkt", Covers: []string{"empty-value", "menu-accepted", "menu-rejected", "string-wrapper", "bool-wrapper", "int-wrapper", "int-wrapper-rejected", "bytes-wrapper", "fieldmask", "fieldmask-rejected"}})
